@@ -43,3 +43,20 @@ void drv_conv_call(CONV_M *c, promise<long> *p, c18_factory *fn) { (*c)(std::mov
 void drv_conv_f_shift(future<long> *out, CONV_F *c, c18_factory *fn) { new(out) future<long>((*c) << std::move(*fn)); }
 void drv_conv_p_shift(future<long> *out, CONV_P *c, c18_factory *fn) { new(out) future<long>((*c) << std::move(*fn)); }
 }
+// ---- future_conv for a VOID source (audit E/D3): To (Ctx::*)() and suspend_point<void> (Ctx::*)(promise<To>&); converters declared only
+struct c18_ctx0 {
+    long conv0();
+    suspend_point<void> conv0_p(promise<long> &p);
+    int tag;
+};
+using CONV_V = future_conv<&c18_ctx0::conv0>;
+using CONV_VP = future_conv<&c18_ctx0::conv0_p>;
+extern "C" {
+void drv_conv_v_ctor(CONV_V *out, c18_ctx0 *c) { new(out) CONV_V(c); }
+void drv_conv_vp_ctor(CONV_VP *out, c18_ctx0 *c) { new(out) CONV_VP(c); }
+}
+// ---- future_with_cb::operator<< (audit E "Adjacent" / audit A item 2): the helper class of make_promise registers its completion with the future a
+// factory returns.  A wrapper with a fixed signature is the function under contract (the operator's return type is part of the proposed repair).
+extern "C" {
+void drv_cb_shift(CB *f, c18_factory *fn) { (*f) << std::move(*fn); }
+}
